@@ -266,6 +266,16 @@ class DequeView:
         i = z3.Int(self.h.st.uniq(name))
         return z3.ForAll([i], z3.Implies(z3.And(self.lo <= i, i < self.hi), fn(i, z3.Select(self.data, i))))
 
+    def wf_pos(self):
+        """the converse of the count facts of wf(): an element with a positive count occurs at some position.  The
+        position is a fresh Skolem array per use, so this may only ever be *assumed* (it is a fact about real
+        deques: `cnt` is the true multiplicity)."""
+        ci = CLASSES[self.cls]
+        e = z3.Const(self.h.st.uniq("e"), ci.elem.sort())
+        pos = z3.Const(self.h.st.uniq("pos"), z3.ArraySort(ci.elem.sort(), Z))
+        p = z3.Select(pos, e)
+        return z3.ForAll([e], z3.Implies(z3.Select(self.cnt, e) >= 1, z3.And(self.lo <= p, p < self.hi, z3.Select(self.data, p) == e)), patterns=[z3.Select(self.cnt, e)])
+
     def wf(self):
         ci = CLASSES[self.cls]
         e = z3.Const(self.h.st.uniq("e"), ci.elem.sort())
@@ -395,7 +405,8 @@ class Obligation:
 
 Z3_TIMEOUT_MS = int(os.environ.get("SEGVC_Z3_TIMEOUT_MS", "20000"))
 MBQI_TIMEOUT_MS = int(os.environ.get("SEGVC_MBQI_TIMEOUT_MS", "8000"))
-FEAS_TIMEOUT_MS = int(os.environ.get("SEGVC_FEAS_TIMEOUT_MS", "3000"))
+COVER_TIMEOUT_MS = int(os.environ.get("SEGVC_COVER_TIMEOUT_MS", "2500"))
+FEAS_TIMEOUT_MS = int(os.environ.get("SEGVC_FEAS_TIMEOUT_MS", "500"))
 
 
 class State:
@@ -492,7 +503,7 @@ class State:
     def cover(self, full=False):
         """vacuity guard: is the current path condition satisfiable?"""
         t0 = time.time()
-        self.solver.set("timeout", Z3_TIMEOUT_MS)
+        self.solver.set("timeout", Z3_TIMEOUT_MS if full else COVER_TIMEOUT_MS)
         r = self.solver.check()
         if r == z3.unsat:
             return "unsat", time.time() - t0
